@@ -1,16 +1,5 @@
 //! In-process property checks (one binary, one sub-command per property).
-mod c11;
-mod c12;
-mod c13;
-mod c14;
-mod c15;
-mod c16;
-mod c17;
-mod c18;
-mod c19;
-mod sess;
-mod stores;
-mod util;
+use rtprops::{c11, c12, c13, c14, c15, c16, c17, c18, c19};
 
 use vcommon::{Check, Settings};
 
